@@ -260,6 +260,8 @@ def closed_models(run, only):
                              coverage=thorough, timeout=1500)
         if r.coverage_zero:
             raise vlib.InfraError("vacuous round model, actions never taken: %s" % r.coverage_zero)
+        if thorough:
+            run.closed_model("BudgetRounds", "BudgetRounds_MC2.cfg", workers=8, heap="4g", timeout=1500)
         for wcfg in WEAK_ROUNDS:
             weak = run.tlc("BudgetRounds", wcfg, workers=2, heap="2g", expect_violation=True)
             if weak.violated != "Inv_C05_StartWithinBudget":
